@@ -40,9 +40,33 @@ def accounting(chk, label, res):
 
 
 def truncation_noted(res):
+    """zones that carry a truncation note of their own, or use a policy that carries one"""
     return {z for z, rs in res['notable_zones'].items() if any('truncat' in r for r in rs)} | \
            {z for z, pols in res.get('emitted_zone_policies', {}).items() for p in pols
             if any('truncat' in r for r in res['notable_policies'].get(p, []))}
+
+
+def excused_from_source(res):
+    """zones whose documented notes allow them to differ from the *untruncated* source: a note of their own (the transformer
+    attaches STDOFF, UNTIL, fixed-RULES and -- for every zone using the policy -- rule AT-time truncations to the zone), or a
+    policy whose SAVE was truncated (recorded at the policy only). A policy-level AT note alone does not excuse a zone."""
+    return {z for z, rs in res['notable_zones'].items() if any('truncat' in r for r in rs)} | \
+           {z for z, pols in res.get('emitted_zone_policies', {}).items() for p in pols
+            if any('truncat' in r and not r.startswith('AT time') for r in res['notable_policies'].get(p, []))}
+
+
+def judge_both(chk, label, lines, scope, res, pieces, work, start, until):
+    """zones without a truncation note against the source as written; zones with one against the source with the documented
+    truncations applied (compiler.truncate_lines) -- altered as documented and no further"""
+    r, n, bad = compiler.judge(chk, label, lines, res['emitted_zones'], pieces, work, start, until, excused_from_source(res))
+    st, tr = r.distinct, r.generated
+    noted = sorted(z for z in truncation_noted(res) if z in pieces and z in res['emitted_zones'])
+    if noted:
+        r2, n2, bad2 = compiler.judge(chk, label, compiler.truncate_lines(lines, scope), noted, pieces, work, start, until, (), variant=':as-truncated')
+        st += r2.distinct
+        tr += r2.generated
+        bad += bad2
+    return st, tr, n, bad
 
 
 def check_source(chk, name, lines, tier, start=2000, until=2050, scan_grid=300):
@@ -65,12 +89,11 @@ def check_source(chk, name, lines, tier, start=2000, until=2050, scan_grid=300):
         out_dirs[scope] = out
         label = '%s:%s' % (name, scope)
         accounting(chk, label, res)
-        noted = truncation_noted(res)
         # python target: ZoneSpecifier over the emitted tables
         pieces = {z: compiler.to_pieces(v['14-1-1']) for z, v in res['pieces'].items()}
-        r, n, bad = compiler.judge(chk, label + ':python', lines, res['emitted_zones'], pieces, work, start, until, noted)
-        st += r.distinct
-        tr += r.generated
+        s_, t_, n, bad = judge_both(chk, label + ':python', lines, scope, res, pieces, work, start, until)
+        st += s_
+        tr += t_
         progs += 1
         disagreements += n
     # arduino target: the generated C++ tables compiled into the sweep driver and read by the real processors
@@ -90,9 +113,9 @@ def check_source(chk, name, lines, tier, start=2000, until=2050, scan_grid=300):
                 for c in crashes:
                     chk.violation('%s:%s:arduino:crash' % (name, scope), 'processor crashed on generated tables (zones %s): %s' % (c[1], c[3][1][-500:]), {})
                 pieces = {z: rec['pieces'] for z, rec in impl.items()}
-                r, n, bad = compiler.judge(chk, '%s:%s:arduino' % (name, scope), lines, res['emitted_zones'], pieces, work, start, until, truncation_noted(res))
-                st += r.distinct
-                tr += r.generated
+                s_, t_, n, bad = judge_both(chk, '%s:%s:arduino' % (name, scope), lines, scope, res, pieces, work, start, until)
+                st += s_
+                tr += t_
                 progs += 1
                 disagreements += n
                 # the processors reading the generated tables still follow their algorithm-level specifications
@@ -141,5 +164,5 @@ def run(tier):
                             'removed': len(r['removed_zones']), 'example_removed': list(r['removed_zones'].items())[:2]})
     chk.add(programs=progs, disagreements_checked=dis, sources=nsrc, states=st, transitions=tr,
             rule='sources: the vendored 2025b release, the source recorded in the shipped zonedbx tables, %d generated sources over the documented grammar, seeded single-field mutations; each x scope {basic, extended} x target {python (ZoneSpecifier), arduino (generated C++ compiled and read by the real processors)}; one "program" = one source x scope x target, one "disagreement checked" = one emitted zone whose run-length trace over [2000, 2050) TLC judged against TzSem.tla on the input lines' % ngen)
-    chk.assume('zic (glibc 2.36) validates TzSem.tla on every source; zones carrying a truncation note are excluded from the semantic comparison')
+    chk.assume('zic (glibc 2.36) validates TzSem.tla on every source; zones carrying a truncation note are judged against the source with the documented truncations applied (vf/compiler.py truncate_lines), all others against the source as written')
     return chk.finish()
